@@ -1,8 +1,8 @@
 (* C20  Time integration: exact stencils, linearity, start value, jitter fallback.
    Only statements; every proof is [exact lemma].  Model: OSU.Model.TimeIntegration. *)
 From Coq Require Import QArith Reals List Arith.
-From OSU.Model Require Import TimeIntegration.
-From OSU.Proofs Require Import TimeIntegration.
+From OSU.Model Require Import TimeIntegration PyKernel.
+From OSU.Proofs Require Import TimeIntegration StencilGen.
 Import ListNotations.
 
 (* weights sum to one: every order 1..8, implicit points 1..order (finite table, exact Q) *)
@@ -85,6 +85,24 @@ Theorem cubic_exact_step : forall (n : nat) a0 a1 a2 a3 tb h,
   let tcur := (tb + INR (4 - n) * h)%R in
   (dotwin (stencilR 4 n) x 0 * h = cubic_prim a0 a1 a2 a3 tcur - cubic_prim a0 a1 a2 a3 (tcur - h))%R.
 Proof. exact cubic_exact_step. Qed.
+
+(* THE TIE TO THE SOURCE.  [gen_stencil o n] runs the four Python functions
+   lagrange_base_polynomial_coef, integrated_lagrange_base_polynomial_coef, evaluate_polynomial and
+   integration_stencil - as translated, purely syntactically, from /repo's current
+   tools/time_integration.py into the embedded language of Model/PyKernel.v on every run - in exact
+   rational arithmetic.  What the source says today computes the model's weights, hence weights that
+   sum to one and are exact on every monomial of degree below the order (orders 1..8, every n). *)
+Theorem generated_stencil_is_model : forall o n, (1 <= o <= 8)%nat -> (1 <= n <= o)%nat ->
+  exists l, gen_stencil o n = Some l /\ Forall2 Qeq l (stencil o n).
+Proof. exact generated_stencil_is_model. Qed.
+
+Theorem generated_sum_one : forall o n, (1 <= o <= 8)%nat -> (1 <= n <= o)%nat ->
+  exists l, gen_stencil o n = Some l /\ (qsum l == 1)%Q.
+Proof. exact generated_sum_one. Qed.
+
+Theorem generated_exact_monomial : forall o n d, (1 <= o <= 8)%nat -> (1 <= n <= o)%nat -> (d < o)%nat ->
+  exists l, gen_stencil o n = Some l /\ (momQ_aux l o n 0 d == targetQ d)%Q.
+Proof. exact generated_exact_monomial. Qed.
 
 (* non-vacuity: concrete instances meet the premises *)
 Example stencil_4_1 : stencil 4 1 = [ (40310784 # 967458816); (-30720 # 147456); (116736 # 147456); (362797056 # 967458816) ]%Q
